@@ -37,6 +37,26 @@ THREE_TUPLES = ('blockshape', 'shape_pad', 'block_dims')
 PUBLIC_HELPERS = False    # also dissolve small public helpers that no rule names
 
 
+def _negated(t):
+    """the negation of a test in its simplest spelling: not not a -> a; == / != , in / not in, is / is not inverted;
+    De Morgan over and / or"""
+    if isinstance(t, ast.UnaryOp) and isinstance(t.op, ast.Not):
+        return t.operand
+    if isinstance(t, ast.Compare) and len(t.ops) == 1 and isinstance(t.ops[0], (ast.NotIn, ast.In, ast.Is, ast.IsNot, ast.Eq, ast.NotEq)):
+        inv = {ast.NotIn: ast.In, ast.In: ast.NotIn, ast.Is: ast.IsNot, ast.IsNot: ast.Is, ast.Eq: ast.NotEq,
+               ast.NotEq: ast.Eq}[type(t.ops[0])]
+        return ast.copy_location(ast.Compare(left=t.left, ops=[inv()], comparators=t.comparators), t)
+    if isinstance(t, ast.BoolOp):
+        op = ast.And() if isinstance(t.op, ast.Or) else ast.Or()
+        return ast.copy_location(ast.BoolOp(op=op, values=[_negated(v) for v in t.values]), t)
+    return ast.copy_location(ast.UnaryOp(op=ast.Not(), operand=t), t)
+
+
+class _FnBody(list):
+    """top-level statement list of a function none of whose returns carries a value (a bare `return` ends the call)"""
+    _fn_tail = True
+
+
 class _LoopBody(list):
     """statement list that is directly the body of a loop (a `continue` in it ends the iteration)"""
     _in_loop = True
@@ -533,7 +553,9 @@ class ModuleNormaliser:
                 before = ast.dump(fn)
                 if self.consts:
                     self.fold_consts(fn)
-                fn.body = self.struct_block(fn.body, fn)
+                bare = not any(isinstance(r, ast.Return) and r.value is not None for r in _own_nodes(fn)) and \
+                    not any(isinstance(r, (ast.Yield, ast.YieldFrom)) for r in _own_nodes(fn))
+                fn.body = self.struct_block(_FnBody(fn.body) if bare else fn.body, fn)
                 self.merge_aug(fn)
                 self.ssa_rename(fn)
                 if not skip('inline'):
@@ -578,7 +600,8 @@ class ModuleNormaliser:
         out = []
         i = 0
         in_loop = getattr(body, '_in_loop', False)
-        body = _LoopBody(body) if in_loop else list(body)
+        fn_tail = getattr(body, '_fn_tail', False)
+        body = _LoopBody(body) if in_loop else (_FnBody(body) if fn_tail else list(body))
         while i < len(body):
             s = body[i]
             # recurse
@@ -596,27 +619,19 @@ class ModuleNormaliser:
                     and not (len(s.orelse) == 1 and isinstance(s.orelse[0], ast.If)) and not skip('swapnot'):
                 s.test, s.body, s.orelse = s.test.operand, s.orelse, s.body
                 self.log.append(('swap-not', fn.name, s.lineno))
-            # 5b. a guard clause inside a loop body:  `if c: continue` followed by the rest of the iteration is the same as
-            #     `if not c: <rest>` (the form the rules read; the body of `struct_block` is a loop body when fn says so)
-            if isinstance(s, ast.If) and not s.orelse and len(s.body) == 1 and isinstance(s.body[0], ast.Continue) and \
-                    getattr(body, '_in_loop', False) and i + 1 < len(body) and not skip('guardcontinue'):
+            # 5b. a guard clause:  `if c: continue` in a loop body (or `if c: return` at the top level of a function that
+            #     returns nothing) followed by the rest is the same as `if not c: <rest>` - the form the rules read
+            guard = isinstance(s, ast.If) and not s.orelse and len(s.body) == 1 and i + 1 < len(body) and not skip('guardcontinue') and (
+                (isinstance(s.body[0], ast.Continue) and in_loop) or
+                (isinstance(s.body[0], ast.Return) and s.body[0].value is None and getattr(body, '_fn_tail', False)))
+            if guard:
                 rest = body[i + 1:]
-                t = s.test
-                if isinstance(t, ast.UnaryOp) and isinstance(t.op, ast.Not):
-                    nt = t.operand
-                elif isinstance(t, ast.Compare) and len(t.ops) == 1 and isinstance(t.ops[0], (ast.NotIn, ast.In, ast.Is, ast.IsNot,
-                                                                                                  ast.Eq, ast.NotEq)):
-                    inv = {ast.NotIn: ast.In, ast.In: ast.NotIn, ast.Is: ast.IsNot, ast.IsNot: ast.Is, ast.Eq: ast.NotEq,
-                           ast.NotEq: ast.Eq}[type(t.ops[0])]
-                    nt = ast.copy_location(ast.Compare(left=t.left, ops=[inv()], comparators=t.comparators), t)
-                else:
-                    nt = ast.copy_location(ast.UnaryOp(op=ast.Not(), operand=t), t)
-                new = ast.copy_location(ast.If(test=nt, body=rest, orelse=[]), s)
+                new = ast.copy_location(ast.If(test=_negated(s.test), body=rest, orelse=[]), s)
                 ast.fix_missing_locations(new)
                 del body[i:]
                 body.append(new)
-                self.log.append(('guard-continue', fn.name, s.lineno))
-                nb = _LoopBody(new.body)
+                self.log.append(('guard-clause', fn.name, s.lineno))
+                nb = _LoopBody(new.body) if in_loop else (_FnBody(new.body) if getattr(body, '_fn_tail', False) else list(new.body))
                 new.body = self.struct_block(nb, fn)
                 out.append(new)
                 i += 1
